@@ -322,11 +322,13 @@ def main():  # noqa
         for l in lines:
             if l.startswith('expect.history_hash='):
                 hh = l.split('=', 1)[1]
+        hash_note = ''
         if hh and rep['hash'] != hh:
-            sim_faults.append('seed %d: history hash differs between processes (%s vs %s)' % (vseed, hh, rep['hash']))
-            continue
+            # same violation class in a fresh process but another history: the run depends on what the worker process had
+            # executed before (state kept across calls) -- reported, with the note, because the fresh-process replay stands on its own
+            hash_note = ' [history differs between the worker process and a fresh process: the outcome depends on earlier calls in the same process]'
         jpath = os.path.join(VERIF, 'replays', '%s-%d.json' % (pid, vseed))
-        json.dump(plan_to_replay_json(pid, engine, variant, vseed, plan_text, cls, rep['msg'], hh), open(jpath, 'w'), indent=1)
+        json.dump(plan_to_replay_json(pid, engine, variant, vseed, plan_text, cls, rep['msg'], rep['hash']), open(jpath, 'w'), indent=1)
         try:
             os.unlink(planpath)
         except OSError:
@@ -335,7 +337,7 @@ def main():  # noqa
         if k:
             known_hits.setdefault(k['id'], dict(k=k, n=0, replay=jpath))['n'] += 1
         else:
-            reported.append((jpath, cls, rep['msg']))
+            reported.append((jpath, cls, rep['msg'] + hash_note))
 
     seen_crash = {}
     for variant, cseed, rc, tail in crashes:
